@@ -489,3 +489,19 @@ Theorem C11_refuted_late_registration :
 Proof. exact late_registration_refuted. Qed.
 Goal True. idtac "ASSUMPTIONS-OF C11_refuted_late_registration". Abort.
 Print Assumptions C11_refuted_late_registration.
+
+(* NEW with ProcessLeaderPushUnLock in the model: commandAofs is keyed by RequestId alone *)
+Theorem C11_refuted_duplicate_request_id :
+  let '(st, evs) := arun (init_astate 1000000 1 1) run_duplicate_request_id in
+  answers evs =
+    [[]; [EReply 2 1 R_ERROR 0 0 102 0 0 None]; [];
+     [];
+     [EReply 1 1 R_TIMEOUT 0 0 101 0 0 None; EPanic "uaf:doTimeOut"]]
+  /\ (let st2 := fst (arun (init_astate 1000000 1 1) (firstn 2 run_duplicate_request_id)) in
+      a_reg st2 = []
+      /\ option_map (fun l => (l_ack l, l_locked l)) (aget (store (a_db st2)) 1) = Some (1, 1)
+      /\ aget (store (a_db st2)) 2 = None
+      /\ twheel (a_db st2) = [(1, [1; 2])]).
+Proof. exact duplicate_request_id_refuted. Qed.
+Goal True. idtac "ASSUMPTIONS-OF C11_refuted_duplicate_request_id". Abort.
+Print Assumptions C11_refuted_duplicate_request_id.
